@@ -198,6 +198,16 @@ func genLearn(g *G) (of.Action, *spec.Node) {
 		sn = spec.N("learn_spec", spec.U("src_kind", srcK), spec.U("dst_kind", dstKind), spec.U("n_bits", uint64(nb)))
 		if srcImm {
 			v := g.Bytes(l+"imm", 2*((nb+15)/16))
+			// the immediate is an n_bits-wide number, right-justified in whole 16-bit words: bits above n_bits
+			// are clear (a value that does not fit its declared width is outside "every field within its width";
+			// the switch refuses it, and an encoder may as well clear or reject those bits)
+			for i, spare := 0, len(v)*8-nb; spare > 0 && i < len(v); i, spare = i+1, spare-8 {
+				if spare >= 8 {
+					v[i] = 0
+				} else {
+					v[i] &= 0xff >> uint(spare)
+				}
+			}
 			s.SrcValue = cp(v)
 			sn.With(spec.B("src_value", v))
 		} else {
